@@ -76,7 +76,7 @@ def mk(H, W, actions, what, view=Shape(1, 3)):
         wrap = what.startswith('wrapper') or what.startswith('switch')
         sig = SIG3 if (wrap or H * W >= 4) else SIG5
         from ..stubs import ORS
-        if what == 'switch-sequence':
+        if what in ('switch-sequence', 'switch'):
             sig = [e for e in SIG3 if e[0] in ('Floor', 'Key(YELLOW)')]
         S, world = lazy_state(sx, H, W, SIG5[:1] if what.endswith('reset') else sig, held_sigma=HELD,
                               orientations=ORS[:1] if (what.endswith('reset') or what == 'switch-sequence') else ORS)
